@@ -26,6 +26,7 @@ package main
 import (
 	"fmt"
 	"go/ast"
+	"go/build"
 	"go/constant"
 	"go/importer"
 	"go/parser"
@@ -2162,7 +2163,19 @@ type tolerantImporter struct {
 }
 
 func (ti tolerantImporter) Import(path string) (*types.Package, error) {
-	p, err := ti.base.Import(path)
+	return ti.ImportFrom(path, "", 0)
+}
+
+// ImportFrom resolves the import relative to the directory of the importing file (inside the
+// repository's module), whatever the working directory of the translator is
+func (ti tolerantImporter) ImportFrom(path, dir string, mode types.ImportMode) (*types.Package, error) {
+	var p *types.Package
+	var err error
+	if from, ok := ti.base.(types.ImporterFrom); ok {
+		p, err = from.ImportFrom(path, dir, mode)
+	} else {
+		p, err = ti.base.Import(path)
+	}
 	if err != nil {
 		// a package we cannot load (generated protobuf code and its dependencies): an empty stand-in;
 		// the functions that use it are not in the translated set
@@ -2175,6 +2188,8 @@ func (ti tolerantImporter) Import(path string) (*types.Package, error) {
 }
 
 func (t *tr) load(repo string) {
+	// the source importer locates the main module (and through it the module cache) from this directory
+	build.Default.Dir = repo
 	t.fset = token.NewFileSet()
 	dir := filepath.Join(repo, t.unit.Dir)
 	pkgs, err := parser.ParseDir(t.fset, dir, func(fi os.FileInfo) bool {
